@@ -78,6 +78,71 @@ class ClassVal:
     method_home: Optional[Dict[str, str]] = None
 
 
+class IntArray:
+    """a one-dimensional integer numpy array, as far as index arithmetic uses one: element-wise + and // with integers or equal-length
+    arrays, integer and slice indexing, slice assignment; values are Python integers (no fixed width)"""
+    _sa_model = True
+
+    def __init__(self, values):
+        self.v = [int(x) for x in values]
+
+    def _zip(self, o):
+        if isinstance(o, IntArray):
+            if len(o.v) != len(self.v):
+                raise Undecidable("array shapes differ")
+            return o.v
+        if isinstance(o, int) and not isinstance(o, bool):
+            return [o] * len(self.v)
+        raise Undecidable(f"array arithmetic with {o!r}")
+
+    def __add__(self, o):
+        return IntArray([a + b for a, b in zip(self.v, self._zip(o))])
+    __radd__ = __add__
+    __iadd__ = __add__
+
+    def __sub__(self, o):
+        return IntArray([a - b for a, b in zip(self.v, self._zip(o))])
+
+    def __mul__(self, o):
+        return IntArray([a * b for a, b in zip(self.v, self._zip(o))])
+    __rmul__ = __mul__
+
+    def __floordiv__(self, o):
+        return IntArray([a // b for a, b in zip(self.v, self._zip(o))])
+
+    def __mod__(self, o):
+        return IntArray([a % b for a, b in zip(self.v, self._zip(o))])
+
+    def __getitem__(self, k):
+        if isinstance(k, slice):
+            return IntArray(self.v[k])
+        if isinstance(k, int):
+            return self.v[k]
+        raise Undecidable(f"array index {k!r}")
+
+    def __setitem__(self, k, val):
+        if isinstance(k, slice):
+            n = len(self.v[k])
+            vals = val.v if isinstance(val, IntArray) else ([val] * n if isinstance(val, int) else list(val))
+            if len(vals) != n:
+                raise Undecidable("slice assignment of a different length")
+            self.v[k] = [int(x) for x in vals]
+        else:
+            self.v[k] = int(val)
+
+    def __len__(self):
+        return len(self.v)
+
+    def __iter__(self):
+        return iter(self.v)
+
+    def __eq__(self, o):
+        return isinstance(o, IntArray) and o.v == self.v
+
+    def __repr__(self):
+        return f"IntArray({self.v})"
+
+
 class _Break(Exception):
     pass
 
@@ -247,9 +312,12 @@ class Folder:
                 self.assign(a, b)
         elif isinstance(t, ast.Subscript):
             cont = self.expr(t.value)
-            k = self.expr(t.slice)
-            if isinstance(cont, (dict, list)):
-                cont[k] = v
+            if isinstance(t.slice, ast.Slice):
+                k = slice(*(self.expr(x) if x is not None else None for x in (t.slice.lower, t.slice.upper, t.slice.step)))
+            else:
+                k = self.expr(t.slice)
+            if isinstance(cont, (dict, list)) or getattr(cont, "_sa_model", False) and hasattr(cont, "__setitem__"):
+                cont[k] = list(v) if isinstance(cont, list) and isinstance(k, slice) else v
             else:
                 raise Undecidable(f"store into {norm(t.value)}")
         elif isinstance(t, ast.Attribute):
@@ -289,6 +357,9 @@ class Folder:
             if e.id == "pi":
                 return sp.pi
             if e.id in ("int", "float", "bool", "str", "list", "dict", "tuple", "complex"):
+                return Opaque("type:" + e.id)
+            if e.id.endswith(("Warning", "Error")) and e.id[0].isupper() and hasattr(__builtins__ if not isinstance(__builtins__, dict) else object, e.id) or \
+                    (isinstance(__builtins__, dict) and e.id in __builtins__ and e.id.endswith(("Warning", "Error"))):
                 return Opaque("type:" + e.id)
             if self.resolver is not None:
                 r = self.resolver(e.id)
@@ -606,6 +677,21 @@ class Folder:
         if fn in ("np.ones", "np.zeros", "numpy.ones", "numpy.zeros") and len(args) == 1 and isinstance(args[0], int) and not isinstance(args[0], bool) and \
                 set(kwargs) <= {"dtype"}:
             return [1 if fn.endswith("ones") else 0] * args[0]         # a one-dimensional array of a literal length, as a list
+        if fn in ("np.linspace", "numpy.linspace") and len(args) == 3 and all(isinstance(a, int) and not isinstance(a, bool) for a in args) and \
+                set(kwargs) == {"dtype"} and kwargs["dtype"] == Opaque("type:int") and args[2] >= 1:
+            lo, hi, cnt = args
+            if cnt == 1:
+                return IntArray([lo])
+            if (hi - lo) % (cnt - 1) != 0:
+                raise Undecidable("np.linspace with a non-integer step")
+            return IntArray([lo + i * (hi - lo) // (cnt - 1) for i in range(cnt)])
+        if fn in ("np.arange", "numpy.arange") and 1 <= len(args) <= 3 and all(isinstance(a, int) and not isinstance(a, bool) for a in args) and set(kwargs) <= {"dtype"}:
+            return IntArray(range(*args))
+        if fn in ("np.concatenate", "numpy.concatenate") and len(args) == 1 and isinstance(args[0], (list, tuple)) and not kwargs:
+            if all(isinstance(x, IntArray) for x in args[0]):
+                return IntArray([y for x in args[0] for y in x.v])
+            if all(isinstance(x, list) for x in args[0]):
+                return [y for x in args[0] for y in x]
         if fn in ("np.prod", "numpy.prod", "math.prod") and len(args) == 1 and isinstance(args[0], (list, tuple)) and not kwargs:
             out = 1
             for x in args[0]:
